@@ -10,7 +10,7 @@ PROP = "C03"
 LEVEL = "exploration"
 SHARDS = {"quick": 8, "thorough": 16}
 TIMEOUT = {"quick": 900, "thorough": 7200}
-REQUIRED = {"seed": 800, "master_key": 200, "constructors": 60, "probe.bip39_seed_from_mnemonic": 100,
+REQUIRED = {"seed": 800, "master_key": 200, "constructors": 60, "seed_routes": 100, "probe.bip39_seed_from_mnemonic": 100,
             "probe.master_key": 100}
 RULE = ("mnemonic/passphrase strings assembled from Unicode building blocks for which NFC, NFD, NFKC and NFKD all differ "
         "(precomposed vs combining, ligatures, Angstrom sign, full/half-width, squared units, Hangul syllables vs jamo, CJK "
@@ -171,6 +171,36 @@ def judge_constructors(ctx, case):
                      mech="C03.constructors." + (bad[0][0] if bad else ""))
 
 
+def judge_seed_routes(ctx, case):
+    """Arbitrary seed bytes (leading/trailing zero bytes, odd lengths): bytes
+    route, hex route (lower/upper) and master-xprv route hold the same master."""
+    from btc_hd_wallet.base_wallet import BaseWallet
+    seed = case["seed"]
+    try:
+        exp = rb32.master(seed)
+    except rb32.InvalidChild:
+        return None
+    bad = []
+    for tn in (False, True):
+        routes = {
+            "bytes": lambda: BaseWallet.from_bip39_seed_bytes(bip39_seed=seed, testnet=tn),
+            "hex": lambda: BaseWallet.from_bip39_seed_hex(bip39_seed=seed.hex(), testnet=tn),
+            "HEX": lambda: BaseWallet.from_bip39_seed_hex(bip39_seed=seed.hex().upper(), testnet=tn),
+            "xprv": lambda: BaseWallet.from_extended_key(extended_key=exp.xprv(rb32.version_for("prv", tn, 44))),
+        }
+        for name, mk in routes.items():
+            try:
+                w = mk()
+            except Exception as e:  # noqa
+                bad.append((name + ".raised", exp.fields(), e))
+                continue
+            b = bridge.compare_node(w.master, exp, tn, True)
+            if b:
+                bad.append(("%s.%s" % (name, b[0][0]), b[0][1], b[0][2]))
+    return ctx.judge("seed_routes", not bad, case, exp.fields(), bad, cls="seedroutes|%s|len%d" % (case.get("tag", ""), len(seed)),
+                     mech="C03.seed_routes." + (bad[0][0] if bad else ""))
+
+
 def judge_new_wallet(ctx, case):
     from btc_hd_wallet.base_wallet import BaseWallet
     w = BaseWallet.new_wallet(mnemonic_length=case["words"], password=case["passphrase"], testnet=case["testnet"])
@@ -250,6 +280,13 @@ def run(ctx):
                 judge_master(ctx, {"seed": b"\x00" * ln})
         for _ in range(ctx.scale(200, 30000)):
             judge_master(ctx, {"seed": gen.rbytes(rnd, rnd.choice([16, 32, 64, 64, 64, rnd.randrange(0, 200)]))})
+        for j in range(ctx.scale(160, 20000)):
+            ln = rnd.choice([16, 32, 64, 64, 64, rnd.randrange(1, 129)])
+            kind = rnd.choice(["lead0", "lead0", "trail0", "random", "zero", "ff"])
+            z = rnd.randrange(1, min(ln, 5) + 1)
+            sd = {"lead0": b"\x00" * z + gen.rbytes(rnd, ln - z), "trail0": gen.rbytes(rnd, ln - z) + b"\x00" * z,
+                  "random": gen.rbytes(rnd, ln), "zero": b"\x00" * ln, "ff": b"\xff" * ln}[kind]
+            judge_seed_routes(ctx, {"seed": sd, "tag": kind})
         for j in range(ctx.scale(64, 6000)):
             ptag, p = gen_text(rnd, "pass")
             judge_constructors(ctx, {"entropy": gen.rbytes(rnd, rnd.choice([16, 20, 24, 28, 32])), "passphrase": p,
@@ -269,5 +306,7 @@ def replay(ctx, monitor, case):
         judge_master(ctx, case)
     elif monitor == "constructors":
         judge_constructors(ctx, case)
+    elif monitor == "seed_routes":
+        judge_seed_routes(ctx, case)
     else:
         judge_new_wallet(ctx, case)
